@@ -108,6 +108,25 @@ pub fn replay_case(case: &Value, tally: &mut Tally) {
             _ => panic!("TOOL-ERROR: unknown format case type {}", t),
         }
         out.push(("the loader consumed the whole file", json!(bytes.len()), json!(cur.position())));
+        // the same file as the payload of a present optional structure (header = its size in elements):
+        // Option<T>::load returns Some(value) equal to the directly loaded one and consumes header + payload
+        {
+            let mut wrapped: Vec<u8> = ((bytes.len() / 8) as u64).to_le_bytes().to_vec();
+            wrapped.extend_from_slice(&bytes);
+            macro_rules! opt { ($ty:ty) => {{
+                let mut c2 = std::io::Cursor::new(&wrapped);
+                let direct = <$ty>::load(&mut std::io::Cursor::new(&bytes)).ok();
+                match Option::<$ty>::load(&mut c2) {
+                    Ok(o) => json!([o.is_some(), o == direct, c2.position()]),
+                    Err(e) => json!(e.to_string()),
+                }
+            }} }
+            let got = match t { "raw" => opt!(RawVector), "int" => opt!(IntVector), "bv" => opt!(BitVector), "sparse" => opt!(SparseVector), "rl" => opt!(RLVector),
+                                "wmcore" => opt!(WMCore), "wm" => opt!(WaveletMatrix), _ => json!(null) };
+            if !bytes.is_empty() && !got.is_null() {
+                out.push(("as the payload of a present optional structure: Some, equal to the directly loaded value, header + payload consumed", json!([true, true, wrapped.len()]), got));
+            }
+        }
         out
     });
     match r {
